@@ -6,6 +6,8 @@ import Driver.Multi
 import Driver.Rec
 import Driver.Up
 import Driver.Down
+import Driver.Call
+import Driver.KA
 /- Line-protocol driver: `driver <topic>` reads one op per line on stdin, prints one line per op. -/
 open Driver
 
@@ -33,4 +35,6 @@ def main (args : List String) : IO UInt32 := do
   | ["rec"] => loop stdin stdout Driver.Rec.step {}; return 0
   | ["up"] => loop stdin stdout Driver.Up.step {}; return 0
   | ["down"] => loop stdin stdout Driver.Down.step {}; return 0
+  | ["call"] => loop stdin stdout Driver.Call.step {}; return 0
+  | ["ka"] => loop stdin stdout Driver.KA.step (); return 0
   | _ => IO.eprintln "usage: driver <topic>"; return 2
